@@ -206,7 +206,7 @@ def define_strings(defs):
 
 
 def entry_dict(root, e):
-    main, dirs, defs, incs = e
+    main, dirs, defs, incs = e[:4]
     return {"file": str(root.joinpath(*main)), "defines": define_strings(defs),
             "include_paths": [str(root.joinpath(*d)) for d in dirs],
             "include_files": [pstr(n) for n in incs]}
@@ -309,9 +309,15 @@ def write_cli_inputs(root, cfg, seed, toml_exclude=None, shuffle=False, rel_root
         if shuffle:
             rng.shuffle(es)
         db = []
-        for main, dirs, defs, incs in es:
+        for e in es:
+            main, dirs, defs, incs = e[:4]
+            arch = e[4] if len(e) > 4 else None
             comp = rng.choice(COMPILERS)
+            if arch is not None:
+                comp = "archcc"                      # defined in .cbi/config (USER_CONFIG)
             args = [comp]
+            if arch:
+                args += [f"--arch={arch}"] if rng.random() < 0.5 else ["--arch", f"sm{arch}"]
             pieces = [f"-D{d}" for d in define_strings(defs)]
             for d in dirs:
                 rel = os.path.relpath(root.joinpath(*d) if rel_root is None else rel_root.joinpath(*d), root)
@@ -539,3 +545,45 @@ def coverage_prediction(triples, files, member, name, strip=0):
             (u if (pstr(p), i) in used else un).extend(nl)
         rows.append([pstr(p[strip:]), sorted(u), sorted(un)])
     return sorted(rows)
+
+
+# ---------------------------------------------------------------- a user-defined compiler with passes (C08 cli kind)
+USER_CONFIG = """[compiler.archcc]
+
+[[compiler.archcc.parser]]
+flags = ["--arch"]
+action = "extend_match"
+pattern = '(\\d+)'
+format = "a$value"
+dest = "passes"
+default = ["a1"]
+
+[[compiler.archcc.passes]]
+name = "a1"
+defines = ["V1=1"]
+
+[[compiler.archcc.passes]]
+name = "a2"
+defines = ["V1=2"]
+"""
+
+
+def write_user_config(root):
+    (root / ".cbi").mkdir(exist_ok=True)
+    (root / ".cbi" / "config").write_text(USER_CONFIG)
+
+
+def expand_entry(e):
+    """A command of the user-defined compiler `archcc` is one entry per pass: the default pass, pass a1
+    (the option's default) and, with --arch=2, pass a2; a pass appends its defines AFTER the command's -D."""
+    if len(e) <= 4 or e[4] is None:
+        return [e[:4]]
+    main, dirs, defs, incs, arch = e
+    out = [[main, dirs, defs, incs], [main, dirs, defs + [["V1", 1]], incs]]
+    if arch == 2:
+        out.append([main, dirs, defs + [["V1", 2]], incs])
+    return out
+
+
+def expand_cfg(cfg):
+    return [[p, [x for e in es for x in expand_entry(e)]] for p, es in cfg]
